@@ -41,6 +41,8 @@ GEN = ["beacon"]
 STREAMS = {
     "real": {"relevant": True, "desc": "histories on the sample beacons of tests/beacons"},
     "synth": {"relevant": True, "desc": "histories on synthetic TLV configurations with random transform programs"},
+    "wire": {"relevant": True, "desc": "decoders of every key variant (incl. RSA-key-only) built from ONE configuration of the c2test "
+             "beacon recover its recorded check-in / task / callback in random interleavings (iter_recover_http)"},
     "degenerate": {"relevant": True, "desc": "configurations lacking settings / trial / non-HTTP / bad public key (exception paths)"},
 }
 TRUSTED = [
@@ -51,6 +53,8 @@ TRUSTED = [
     "not of the values: scalars, step tuples, bytes are immutable Python objects and are interned ids; the settings "
     "tuple and the Setting structures are assumed not to be written by any modelled operation (checked by the snapshot "
     "of Setting.dumps())",
+    "iter_recover_http is modelled on the recorded session of the c2test sample only (tests/test_c2.py wire messages and RSA "
+    "key): per-decoder key state {has private key, session keys none/foreign/own, metadata cached}; RSA/AES/HMAC are not modelled",
     "transform()/recover() are modelled as readers of the decoder's own tsteps/rsteps (their byte-level semantics is C04); "
     "the request dicts they write belong to the caller",
 ]
@@ -95,6 +99,48 @@ def priv_key():
     return _PRIV
 
 
+C2TEST_STEM = "37882262c9b5e971067fd989b26afe28.bin"
+C2TEST_RSA = (
+    117427205845348485244015322822129549811247730233368658993207011448441178690532504818038502351592533412903992324819587429509365062557617469076848055744603713033993541074262699306731808123110723658011905734336339013104629861585165807593797388931565187434008170828073710103901578805379036254367111549325081196051,  # noqa: E501
+    65537,
+    63143753317910889550701801906932991514689126160094983163397901802867320417978485470688235063742198605431276889680136115527710059502159043406582576750470401211113680307065390018237044267922185483204732358859031408916065489305405381946331418517893749803908480784415439301698216721664479409505596732533109402129,  # noqa: E501
+)
+C2TEST_AES_RAND = bytes.fromhex("caeab4f452fe41182d504aa24966fbd0")
+# recorded session of that beacon (tests/test_c2.py; malware-traffic-analysis.net 2021-02-02)
+WIRE = [
+    (b"GET /ptj HTTP/1.1\r\nAccept: */*\r\n"
+     b"Cookie: KN9zfIq31DBBdLtF4JUjmrhm0lRKkC/I/zAiJ+Xxjz787h9yh35cRjEnXJAwQcWP4chXobXT/E5YrZjgreeGTrORnj//A5iZw2TClEnt++gLMyMHwgjsnvg9czGx6Ekpz0L1uEfkVoo4MpQ0/kJk9myZagRrPrFWdE9U7BwCzlE=\r\n"  # noqa: E501
+     b"User-Agent: Mozilla/5.0 (compatible; MSIE 9.0; Windows NT 6.0; WOW64; Trident/5.0)\r\nHost: redacted:8080\r\n"
+     b"Connection: Keep-Alive\r\nCache-Control: no-cache\r\n\r\n"),
+    (b"HTTP/1.1 200 OK\r\nDate: Tue, 2 Feb 2021 16:32:16 GMT\r\nContent-Type: application/octet-stream\r\n"
+     b"Content-Length: 48\r\n\r\n"
+     b"\xea\xa7eW\x17\xb9\x84[\x8fE\x8cS\x13p\xf8\x83\x9e\xba\xb6\x15\x9d\xcc\xd0c\x06\x91s9\xca7\x90U\xdc1V\xd9|z\x14[\xa4\xe2Q\xd0s\x8d\x8f@"),  # noqa: E501
+    (b"POST /submit.php?id=242569267 HTTP/1.1\r\nAccept: */*\r\nContent-Type: application/octet-stream\r\n"
+     b"User-Agent: Mozilla/5.0 (compatible; MSIE 9.0; Windows NT 6.0; WOW64; Trident/5.0)\r\nHost: redacted:8080\r\n"
+     b"Content-Length: 148\r\nConnection: Keep-Alive\r\nCache-Control: no-cache\r\n\r\n"
+     b"\x00\x00\x00\x90U@D\x97\x8d\xf1L\xda\xd3\r\x98\xed\x10\xe0\xff#\x97W\xde\x17\xa1:x\xeb\xa3\xe4\x89 \xaeq\xde\xae\xfc\xd87\x1d\x9f\xed\x95K\x19\x94n\xf2\xeb\x1eO\x9e\xad\xd4`-\x7f\x82m\\\xe2\x06<\xda\xefjx@\x04;\xac\xdd\x13P\x9d\xaf\x86\xc6\xd4*,9\xe7\xe2\xfa\xe2\xc3\xdc}92\x94A\x90\xbb\x01\xa3' \\PB\x86q\xf6y\xda:\xf7\xbe'\xba\xaa\xbe_\xd8\"\x96h\x11\xe4)!\x9d\x8d\xfe\xc2\x83\xbe\xee!\xa0:5\xa6\x00>[\x05\xdf\x12F\xaaN\xcc\xf1\x10\x97"),  # noqa: E501
+]
+PACKET_KIND = {"BeaconMetadata": 1, "TaskPacket": 2, "CallbackPacket": 3}
+_C2TEST_PRIV = None
+
+
+def c2test_index():
+    real_configs()
+    return _REAL_NAMES.index(C2TEST_STEM + ".zip") if (C2TEST_STEM + ".zip") in _REAL_NAMES else None
+
+
+def key_material(tok):
+    """(aes_key, hmac_key, aes_rand, rsa private key) used for the decoders of configuration `tok`"""
+    global _C2TEST_PRIV
+    i = c2test_index()
+    if i is not None and tok == f"r{i}":
+        if _C2TEST_PRIV is None:
+            _C2TEST_PRIV = RSA.construct(C2TEST_RSA)
+        ak, hk = C2.derive_aes_hmac_keys(C2TEST_AES_RAND)
+        return ak, hk, C2TEST_AES_RAND, _C2TEST_PRIV
+    return AES_KEY, HMAC_KEY, AES_RAND, priv_key()
+
+
 AES_KEY = bytes(range(16))
 HMAC_KEY = bytes(range(16, 32))
 AES_RAND = bytes(range(32, 48))
@@ -107,6 +153,7 @@ KINDS = ["name", "const", "enum"]
 # ---------------------------------------------------------------------------------------------------------
 
 _REAL = None
+_REAL_NAMES = []
 
 
 def real_configs():
@@ -123,6 +170,7 @@ def real_configs():
                 continue
             attrs = {k: getattr(cfg, k) for k in ("xorkey", "xorencoded", "pe_export_stamp", "pe_compile_stamp", "architecture")}
             out.append((bytes(cfg.config_block), attrs))
+            _REAL_NAMES.append(p.name)
         _REAL = out
     return _REAL
 
@@ -432,6 +480,48 @@ def mk_line(tok: str, ops) -> str:
 # generators
 # ---------------------------------------------------------------------------------------------------------
 
+def gen_wire_ops(rng, n, snap_every):
+    """decoder constructions of every key variant interleaved with iter_recover_http of the recorded messages"""
+    ops = []
+    ndec = 0
+    for _ in range(n):
+        r = rng.random()
+        if r < 0.30 or ndec == 0:
+            op = f"c2:{rng.choice([0, 1, 2, 2, 2, 4, 3])}"
+            ndec += 1
+        elif r < 0.36:
+            op = "cl:T"
+            ndec += 1
+        elif r < 0.88:
+            d = rng.randrange(0, ndec) if rng.random() < 0.95 else ndec + 2
+            op = f"wr:{d}:{rng.choice([0, 0, 1, 1, 2])}"
+        elif r < 0.92:
+            op = f"{rng.choice(['tr', 'rc'])}:{rng.randrange(0, ndec)}:{rng.randrange(3)}"
+        elif r < 0.96:
+            op = rng.choice(["pf", "va:0", "va:1", "pr"])
+        else:
+            op = "sn"
+        ops.append(op)
+        if snap_every:
+            ops.append("sn")
+    if ops[-1] != "sn":
+        ops.append("sn")
+    return ops
+
+
+WIRE_DIRECTED = [
+    # decoder A sees the check-in, then an RSA-key-only decoder B is built and recovers the same session
+    ["c2:2", "wr:0:0", "c2:2", "wr:1:0", "wr:1:1", "wr:1:2", "sn"],
+    ["c2:4", "wr:0:0", "c2:2", "wr:1:0", "wr:1:1", "sn"],
+    ["c2:2", "wr:0:1", "wr:0:0", "wr:0:1", "wr:0:0", "wr:0:2", "sn"],
+    ["c2:0", "c2:1", "c2:2", "c2:4", "wr:0:0", "wr:1:0", "wr:2:0", "wr:3:0", "wr:0:1", "wr:1:1", "wr:2:1", "wr:3:1",
+     "wr:0:2", "wr:1:2", "wr:2:2", "wr:3:2", "sn"],
+    ["c2:2", "c2:2", "wr:1:0", "wr:0:1", "wr:0:0", "wr:0:1", "wr:1:1", "sn"],
+    ["cl:T", "wr:0:0", "wr:0:1", "c2:2", "wr:1:0", "wr:1:2", "sn"],
+    ["sn", "c2:2", "sn", "wr:0:0", "sn", "c2:2", "sn", "wr:1:0", "sn", "wr:1:1", "sn"],
+]
+
+
 def gen_ops(rng, n, allow_rsa, snap_every):
     ops = []
     ndec = 0
@@ -442,7 +532,7 @@ def gen_ops(rng, n, allow_rsa, snap_every):
         elif r < 0.24:
             op = f"sm:{rng.randrange(3)}:{rng.choice('TF')}:{rng.choice('TF')}"
         elif r < 0.44:
-            k = rng.choice([0, 0, 1, 1, 2, 3] if allow_rsa else [0, 0, 1, 1, 3])
+            k = rng.choice([0, 0, 1, 1, 2, 4, 3] if allow_rsa else [0, 0, 1, 1, 3])
             op = f"c2:{k}"
             ndec += 1
         elif r < 0.52:
@@ -500,10 +590,20 @@ def gen(tier, rng, shard, nshards):
             if mine():
                 yield "real", mk_line(f"r{i}", ops)
     # random histories on real configurations
+    ci = c2test_index()
     for _ in range((3000 if thorough else 200) // nshards):
         i = rng.randrange(nreal)
         n = rng.randrange(1, 26)
-        yield "real", mk_line(f"r{i}", gen_ops(rng, n, False, rng.random() < 0.5))
+        yield "real", mk_line(f"r{i}", gen_ops(rng, n, i == ci, rng.random() < 0.5))
+    # traffic recovery with several decoders of one configuration (the beacon the recorded session belongs to)
+    if ci is not None:
+        for ops in WIRE_DIRECTED:
+            if mine():
+                yield "wire", mk_line(f"r{ci}", ops)
+        for _ in range((2400 if thorough else 200) // nshards):
+            n = rng.randrange(2, 26)
+            yield "wire", mk_line(f"r{ci}", gen_ops(rng, n, True, False) if rng.random() < 0.1
+                                  else gen_wire_ops(rng, n, rng.random() < 0.3))
     # synthetic configurations
     for _ in range((1800 if thorough else 120) // nshards):
         tok = C.hx(gen_synth(rng))
@@ -558,10 +658,37 @@ def render_decoder(t: Table, dec) -> str:
     return "/".join(dots(t, tr.tsteps) + "/" + dots(t, tr.rsteps) for tr in transforms_of(dec))
 
 
+def canon_attr(v, views, depth=0):
+    """canonical deep value of one attribute of the configuration object.  `None` and a mapping whose contents are
+    those of one of the four views are both a `cache-slot` (filling a cache is not an observable change); everything
+    else is compared by content."""
+    if v is None:
+        return "cache-slot/None"
+    if isinstance(v, Mapping):
+        items = [(repr(k), copy.deepcopy(x)) for k, x in v.items()]
+        if items in views:
+            return "cache-slot/None"
+        return ("map", [(k, canon_attr(x, views, depth + 1)) for k, x in items])
+    if isinstance(v, (bytes, str, int, float, bool)):
+        return repr(v)
+    if isinstance(v, (list, tuple)):
+        return (type(v).__name__, [canon_attr(x, views, depth + 1) for x in v])
+    if hasattr(v, "dumps") and callable(v.dumps):
+        try:
+            return (type(v).__name__, v.dumps())
+        except Exception:  # noqa: BLE001
+            pass
+    if hasattr(v, "__dict__") and depth < 4:
+        return (type(v).__name__, [(k, canon_attr(x, views, depth + 1)) for k, x in sorted(vars(v).items())])
+    return type(v).__name__
+
+
 def deep_snapshot(cfg):
-    """independent deep observation of the configuration (accesses the four views)"""
+    """independent deep observation of the configuration: the four views (accessed), the dumps of the settings tuple,
+    the block, and EVERY attribute hanging off the object (names and deep contents)"""
     views = [[(repr(k), copy.deepcopy(v)) for k, v in getattr(cfg, name).items()] for name in VIEWS]
-    return views, tuple(s.dumps() for s in cfg.settings_tuple), bytes(cfg.config_block)
+    attrs = [(k, canon_attr(v, views)) for k, v in sorted(vars(cfg).items())]
+    return views, tuple(s.dumps() for s in cfg.settings_tuple), bytes(cfg.config_block), attrs
 
 
 def config_list_ids(cfg):
@@ -631,9 +758,12 @@ def mk_request():
 class Runner:
     """executes operations against one BeaconConfig object"""
 
-    def __init__(self, cfg):
+    def __init__(self, cfg, tok=None):
         self.cfg = cfg
+        self.tok = tok
+        self.keys = key_material(tok) if tok else (AES_KEY, HMAC_KEY, AES_RAND, priv_key())
         self.decs = []
+        self.own = []  # per decoder: the op that built it followed by the ops made with it
         self.kept = []
         self._kept_ids = {}
         self.text_budget = 1
@@ -652,15 +782,19 @@ class Runner:
             return "M", m, canon(m)
         if o == "c2":
             k = int(w[1])
+            ak, hk, ar, pk = self.keys
             if k == 0:
-                d = C2.C2Http(cfg, aes_key=AES_KEY, hmac_key=HMAC_KEY)
+                d = C2.C2Http(cfg, aes_key=ak, hmac_key=hk)
             elif k == 1:
-                d = C2.C2Http(cfg, aes_rand=AES_RAND)
+                d = C2.C2Http(cfg, aes_rand=ar)
             elif k == 2:
-                d = C2.C2Http(cfg, rsa_private_key=priv_key())
+                d = C2.C2Http(cfg, rsa_private_key=pk)
+            elif k == 4:
+                d = C2.C2Http(cfg, aes_rand=ar, rsa_private_key=pk)
             else:
                 d = C2.C2Http(cfg)
             self.decs.append(d)
+            self.own.append([op])
             return "D", d, canon_decoder(d)
         if o == "cl":
             cl = CL.HttpBeaconClient()
@@ -675,6 +809,7 @@ class Runner:
                 d = getattr(cl, "c2http", None)
                 if d is not None:
                     self.decs.append(d)
+                    self.own.append([op])
                     self.kept.append(cl)
             return "D", d, ("client", rc, canon_decoder(d), cl.domain in cfg.domains, cl.uri in cfg.uris, cl.scheme, cl.port,
                             cl.get_verb, cl.submit_verb, cl.submit_uri, cl.sleeptime, cl.jitter, cl.user_agent,
@@ -704,9 +839,16 @@ class Runner:
                 return "S", tr.rsteps, ("c2data", canon(rec))
             finally:
                 _random.setstate(st)
+        if o == "wr":
+            d = int(w[1])
+            if d >= len(self.decs):
+                return "X", None, "no-decoder"
+            self.own[d].append(f"wr:0:{w[2]}")
+            pkts = list(self.decs[d].iter_recover_http(WIRE[int(w[2])]))
+            return "W", [PACKET_KIND.get(type(p).__name__, 9) for p in pkts], [(type(p).__name__, p.dumps()) for p in pkts]
         if o == "pr":
             vals = [cfg.setting_enums, cfg.domains, cfg.uris, cfg.domain_uri_pairs, cfg.protocol, cfg.port, cfg.watermark,
-                    cfg.is_trial, cfg.public_key, cfg.sleeptime, cfg.jitter]
+                    cfg.is_trial, cfg.public_key, cfg.sleeptime, cfg.jitter, sorted(vars(cfg))]
             if cfg.settings_tuple:
                 vals += [cfg.max_setting_enum, repr(cfg.version)]
             return "U", None, canon(vals)
@@ -749,12 +891,28 @@ class Runner:
         return out
 
 
-def run_fresh(tok, op, variants, text):
-    """canonical result of `op` on a fresh configuration (for transform/recover: with a decoder built from it)"""
-    r = Runner(fresh(tok))
+def run_fresh(tok, op, variants, text, own=None):
+    """canonical result of `op` on a fresh configuration (for transform/recover: with a decoder built from it; for
+    iter_recover_http: after the decoder's OWN earlier calls, and nothing else, were replayed on it)"""
+    r = Runner(fresh(tok), tok)
     r.text_budget = 1 if text else 0
     w = op.split(":")
     try:
+        if w[0] == "wr":
+            if own is None:
+                return "no-decoder"
+            try:
+                r.run(own[0])
+            except Exception as e:  # noqa: BLE001
+                _reraise_watchdog(e)
+            last = None
+            for o in own[1:]:
+                try:
+                    last = r.run(o)[2]
+                except Exception as e:  # noqa: BLE001
+                    _reraise_watchdog(e)
+                    last = ("exc", type(e).__name__)
+            return last
         if w[0] in ("tr", "rc"):
             var = variants.get(int(w[1]))
             if var is None:
@@ -801,7 +959,7 @@ def impl(stream, line):
     try:
         cfg = fresh(tok)
         initial = deep_snapshot(fresh(tok))
-        r = Runner(cfg)
+        r = Runner(cfg, tok)
         # Lark's Reconstructor dominates the cost: the text is regenerated in one history out of four
         r.text_budget = 1 if zlib.crc32(line.encode()) % 4 == 0 else 0
         out = []
@@ -825,6 +983,8 @@ def impl(stream, line):
                 tokn = "P:" + str(nlists)
             elif kind == "S":
                 tokn = "S:" + dots(table, payload)
+            elif kind == "W":
+                tokn = "W:" + ".".join(str(x) for x in payload)
             elif kind == "N":
                 tokn = "N:" + "|".join(render_snapview(table, m) for m in payload)
                 now = deep_snapshot(cfg)
@@ -845,7 +1005,10 @@ def impl(stream, line):
             # history independence: same op on a fresh configuration
             if kind not in ("N",) and viol is None:
                 text = kind == "P" and can[1] is not None
-                if run_fresh(tok, op, variants, text) != can:
+                own = None
+                if op.startswith("wr:") and int(op.split(":")[1]) < len(r.own):
+                    own = list(r.own[int(op.split(":")[1])])
+                if run_fresh(tok, op, variants, text, own) != can:
                     viol = f"history@{i}"
             out.append(tokn + ";" + C.tf(alias))
         out.append("O:ok" if viol is None else "O:viol:" + viol)
@@ -864,7 +1027,7 @@ def nontrivial(stream, line, out):
     if out.startswith("exc "):
         return False
     toks = out.split(" ")
-    return any(t[0] in "DPS" for t in toks) and any(t.startswith("N:") for t in toks)
+    return any(t[0] in "DPSW" for t in toks) and any(t.startswith("N:") for t in toks)
 
 
 def shrink(stream, line):
